@@ -908,10 +908,10 @@ fn main() {
     // connection's identity is its registration rank); labels are restored by running
     // every assignment of close kind (3^3) and protocol version (2^3) to the ranks
     assert_eq!(orders.len(), 15);
-    let variants = 27 * 8 * a.pick(1u64, 8);
-    let n_strict = a.pick(2000u64, 30_000);
-    let n_relaxed = a.pick(6000u64, 120_000);
-    let n_parallel = a.pick(600u64, 12_000);
+    let variants = 27 * 8 * a.pick(1u64, 16);
+    let n_strict = a.pick(2000u64, 90_000);
+    let n_relaxed = a.pick(6000u64, 360_000);
+    let n_parallel = a.pick(600u64, 36_000);
     let threads = a.pick(4usize, 12);
     std::thread::scope(|sc| {
         for shard in 0..threads {
